@@ -1,7 +1,7 @@
 (* C15: the executable checkers accept the model. *)
 From Coq Require Import String.
 From Coq Require Import List NArith ZArith Bool Arith Lia.
-From VF Require Import Base.Sx Sqlite.Model C15.Entry.
+From VF Require Import Base.Sx Sqlite.Model Sqlite.Proofs C15.Entry.
 Import ListNotations.
 Open Scope N_scope.
 
@@ -18,4 +18,18 @@ Qed.
 Lemma holds_model (c : case) : valid c -> holds c (run_model c) = [].
 Proof.
   intros Hv. unfold holds, run_model. rewrite check_run. unfold valid in Hv. rewrite Hv. reflexivity.
+Qed.
+
+Lemma holds_crash_model ops tr w : wrun ops winit tr = Some w ->
+  holds_crash ops (w_acked w) (dump (w_tbl w)) = [].
+Proof.
+  intros H. destruct (crash_prefix ops tr winit w (winv_init ops) H) as (Ht & Ha & Hl).
+  unfold holds_crash. rewrite Ht.
+  assert (Hd : w_done w = w_acked w \/ w_done w = S (w_acked w)) by lia.
+  destruct Hd as [Hd|Hd]; rewrite Hd in *.
+  - replace (Nat.leb (w_acked w) (length ops)) with true by (symmetry; apply Nat.leb_le; lia).
+    unfold tbl_eqb. rewrite sx_eqb_refl. reflexivity.
+  - replace (Nat.leb (S (w_acked w)) (length ops)) with true by (symmetry; apply Nat.leb_le; lia).
+    unfold tbl_eqb. rewrite (sx_eqb_refl (tbl_sx (dump (fold_left apply_mop (firstn (S (w_acked w)) ops) [])))).
+    cbn [andb]. now rewrite orb_true_r.
 Qed.
